@@ -46,14 +46,27 @@ META = {
         "loops and comparing transform output and executed result."),
     "level_note": (
         "Trusted: Coq kernel; hand-written kernels (integers are Z: index wrap-around at 2^63 is not "
-        "modelled, generated values stay far below it); the reference evaluator in harness/props/c16.py; "
-        "correspondence harness. Modelled: convert-scf-to-cf (scf.for, scf.if), scf-for-loop-range-folding, "
-        "scf-for-loop-flatten (both variants), scf-for-loop-unroll, licm (trait table + worklist on flat "
-        "bodies), lower-affine (affine.apply expressions). Not covered by a model: scf.index_switch lowering, "
-        "lower-affine for/load/store and control-flow-hoist (both exercised by the before/after evaluator only), "
-        "desymref (not covered at all), the IR-manipulation lines of every pass (that is C01/C11)."),
+        "modelled, generated values stay far below it; the i32 cast of scf.index_switch IS modelled); the "
+        "reference evaluator in harness/props/c16.py; correspondence harness. Modelled (model + theorem + "
+        "correspondence family): convert-scf-to-cf (scf.for, scf.if, scf.index_switch; the pass has NO scf.while "
+        "lowering in this tree: an scf.while is left untouched, and an scf.for/scf.if nested in a while body is "
+        "left as a multi-block region the verifier rejects), scf-for-loop-range-folding, scf-for-loop-flatten "
+        "(both variants), scf-for-loop-unroll, licm (trait table + worklist on flat bodies), control-flow-hoist "
+        "(scf.if: all-or-nothing hoist decided by the trait table; the driver's dead-op removal and the CSE run "
+        "are not modelled, generated branches contain neither dead nor duplicate ops; affine.if hoisting not "
+        "modelled), lower-affine (affine.apply expressions; affine.for with the single closed-expression bounds "
+        "the pass supports -- max/min maps assert, bounds with operands raise IndexError, both modelled as "
+        "raises; affine.load/store index maps over dims -- maps with symbols raise; the pass has no affine.if "
+        "lowering), frontend-desymrefy on a single block whose symbols are all declared in it (prune_definitions; "
+        "the binary search lower_positional_bound is modelled by its specification; theorem: the forwarded "
+        "update is the cell content; the pass result equals a reference one-pass forwarding on every generated "
+        "block; prune_uses_without_definitions and nested regions are not modelled -- nested regions are the "
+        "known finding C16-kf-9). Not covered by a model: "
+        "nested/pipelined programs (before/after evaluator only), the IR-manipulation lines of every pass "
+        "(that is C01/C11)."),
 }
-COQ_TARGETS = ["C16/Enc.vo", "C16/ProofsFor.vo", "C16/ProofsLoops.vo", "C16/ProofsLicm.vo", "Props/C16.vo"]
+COQ_TARGETS = ["C16/Enc.vo", "C16/ProofsFor.vo", "C16/ProofsLoops.vo", "C16/ProofsLicm.vo", "C16/ProofsMore.vo",
+               "Props/C16.vo"]
 REQ = ["C16.Model", "C16.Enc"]
 ASSUMPTIONS = [
     "index arithmetic does not overflow 64 bits in the compared runs (kernels are over Z)",
@@ -134,6 +147,7 @@ class Ev:
     def __init__(self, module, sem="mlir", fuel=FUEL_PY):
         self.module, self.sem, self.fuel = module, sem, fuel
         self.log, self.loops, self.nonpos = [], [], False
+        self.mem_trace, self.syms = [], {}
         self.funcs = {}
         for op in module.body.block.ops:
             if op.name == "func.func":
@@ -146,7 +160,7 @@ class Ev:
 
     def call(self, name, args):
         f = self.funcs[name]
-        if not f.body.blocks:
+        if name == "eff" or not f.body.blocks:      # @eff is the observable effect (declared, or defined empty)
             self.log.append(list(args))
             return []
         kind, vals = self.region(f.body, list(args), {})
@@ -266,6 +280,49 @@ class Ev:
             for r, v in zip(op.results, vals):
                 env[r] = v
             return None
+        if n == "arith.index_cast":
+            env[op.results[0]] = _wrapw(g(op.operands[0]), _width(op.results[0].type))
+            return None
+        if n == "scf.index_switch":
+            v = g(op.operands[0])
+            reg = op.regions[0]                                  # default region
+            for c, r in zip(op.cases.iter_values(), op.regions[1:]):
+                if c == v:
+                    reg = r
+                    break
+            kind, vals = self.region(reg, [], env)
+            if kind != "yield":
+                raise Unsupported(kind)
+            for r, x in zip(op.results, vals):
+                env[r] = x
+            return None
+        if n == "cf.switch":
+            v = g(op.operands[0])
+            cvals = [] if op.case_values is None else list(op.case_values.iter_values())
+            segs = list(op.case_operand_segments.iter_values())
+            nd = len(op.default_operands)
+            rest = [g(x) for x in op.operands[1 + nd:]]
+            off = 0
+            for c, blk, k in zip(cvals, op.successors[1:], segs):
+                if c == v:
+                    return ("br", blk, rest[off:off + k])
+                off += k
+            return ("br", op.successors[0], [g(x) for x in op.operands[1:1 + nd]])
+        if n == "symref.declare":
+            self.syms[op.sym_name.data] = None
+            return None
+        if n == "symref.update":
+            name = op.symbol.root_reference.data
+            if name not in self.syms:
+                raise Trap("update of an undeclared symbol")
+            self.syms[name] = g(op.operands[0])
+            return None
+        if n == "symref.fetch":
+            name = op.symbol.root_reference.data
+            if self.syms.get(name) is None:
+                raise Trap("fetch of an undeclared / uninitialised symbol")
+            env[op.results[0]] = self.syms[name]
+            return None
         if n == "memref.alloc":
             shape = tuple(op.results[0].type.get_shape())
             if any(d < 0 for d in shape):
@@ -281,6 +338,7 @@ class Ev:
                 vs = [_aff(r, vs[:m.num_dims], vs[m.num_dims:]) for r in m.results]
             if len(vs) != len(mem["shape"]) or any(not (0 <= i < d) for i, d in zip(vs, mem["shape"])):
                 raise Trap("memref access out of bounds")
+            self.mem_trace.append(vs[0])
             if st:
                 mem["data"][tuple(vs)] = g(op.operands[0])
             else:
@@ -288,10 +346,13 @@ class Ev:
             return None
         if n == "affine.for":
             lbm, ubm = op.lowerBoundMap.data, op.upperBoundMap.data
-            if lbm.num_dims or lbm.num_symbols or ubm.num_dims or ubm.num_symbols:
-                raise Unsupported("affine.for with bound operands")
-            lb, ub, step = _aff(lbm.results[0], [], []), _aff(ubm.results[0], [], []), op.step.value.data
-            carried = [g(v) for v in op.operands]
+            lo = [g(v) for v in op.lowerBoundOperands]
+            uo = [g(v) for v in op.upperBoundOperands]
+            # several results: the lower bound is their maximum, the upper bound their minimum
+            lb = max(_aff(r, lo[:lbm.num_dims], lo[lbm.num_dims:]) for r in lbm.results)
+            ub = min(_aff(r, uo[:ubm.num_dims], uo[ubm.num_dims:]) for r in ubm.results)
+            step = op.step.value.data
+            carried = [g(v) for v in op.inits]
             if step <= 0:
                 self.nonpos = True
             iv = lb
@@ -363,7 +424,7 @@ def evaluate(module, args, sem="mlir", fname="f"):
         ret, st = [], "fuel"
     except RecursionError:
         ret, st = [], "fuel"
-    return {"status": st, "ret": ret, "log": ev.log, "loops": ev.loops, "nonpos": ev.nonpos}
+    return {"status": st, "ret": ret, "log": ev.log, "loops": ev.loops, "nonpos": ev.nonpos, "mem": ev.mem_trace}
 
 
 def enc_eval(e):
@@ -413,9 +474,9 @@ def mlctx():
     global _CTX
     if _CTX is None:
         from xdsl.context import Context
-        from xdsl.dialects import affine, arith, builtin, cf, func, scf
+        from xdsl.dialects import affine, arith, builtin, cf, func, scf, symref
         _CTX = Context()
-        for d in (arith.Arith, builtin.Builtin, func.Func, scf.Scf, cf.Cf, affine.Affine):
+        for d in (arith.Arith, builtin.Builtin, func.Func, scf.Scf, cf.Cf, affine.Affine, symref.Symref):
             _CTX.load_dialect(d)
     return _CTX
 
@@ -440,6 +501,8 @@ def get_pass(name):
         from xdsl.transforms.loop_invariant_code_motion import LoopInvariantCodeMotionPass as P
     elif name == "lower-affine":
         from xdsl.transforms.lower_affine import LowerAffinePass as P
+    elif name == "frontend-desymrefy":
+        from xdsl.transforms.desymref import FrontendDesymrefyPass as P
     elif name == "control-flow-hoist":
         from xdsl.transforms.control_flow_hoist import ControlFlowHoistPass as P
     else:
@@ -467,8 +530,9 @@ def val(spec, inp):
 class Txt:
     """tiny MLIR text builder for one function @f(%a0..%a3 : index) -> index"""
 
-    def __init__(self):
+    def __init__(self, eff_defined=False):
         self.consts, self.lines, self.n = {}, [], 0
+        self.eff_defined = eff_defined   # frontend-desymrefy rejects a body-less func (region with 0 blocks)
 
     def fresh(self, p="t"):
         self.n += 1
@@ -487,7 +551,9 @@ class Txt:
 
     def module(self, ret):
         args = ", ".join(f"%a{i} : index" for i in range(N_ARGS))
-        head = ["func.func private @eff(index) -> ()", f"func.func @f({args}) -> index {{"]
+        eff = ("func.func @eff(%x : index) {\n  func.return\n}" if self.eff_defined
+               else "func.func private @eff(index) -> ()")
+        head = [eff, f"func.func @f({args}) -> index {{"]
         cs = [f"  {n} = arith.constant {k} : index" for k, n in sorted(self.consts.items())]
         return "\n".join(head + cs + self.lines + [f"  func.return {ret} : index", "}"])
 
@@ -1137,7 +1203,8 @@ def unroll_impl(case):
     m = parse(unroll_text(case))
     before = m.clone()
     f = func_f(m)
-    old = {id(o) for o in f.walk()}
+    keep_alive = list(f.walk())              # erased ops must stay alive, or CPython may reuse their id()
+    old = {id(o) for o in keep_alive}
     apply_pass(m, "scf-for-loop-unroll")
     fired = 0 if the_for(f) is not None else 1
     ivs = [o.value.value.data for o in f.body.blocks[0].ops if o.name == "arith.constant" and id(o) not in old]
@@ -1538,7 +1605,14 @@ def affmem_module(case):
     v = arith.AddiOp(v1.result, v2.result)
     b1.add_ops([v1, v2, v, affine.StoreOp(v.result, alloc.memref, [b1.args[0], a1], amap(case["st"])),
                 affine.YieldOp.get()])
-    main = affine.ForOp.from_region([], [], [], [], case["lo"], case["N"], Region(b1), case["step"])
+    lbs = case.get("lbs") or [["c", case["lo"]]]
+    ubs = case.get("ubs") or [["c", case["N"]]]
+
+    def bmap(es):
+        nd = 1 if any("d" in json.dumps(e) for e in es) else 0
+        return AffineMapAttr(AffineMap(nd, 0, tuple(aff_expr(e) for e in es))), nd
+    (lbm, lnd), (ubm, und) = bmap(lbs), bmap(ubs)
+    main = affine.ForOp.from_region([a0] * lnd, [a0] * und, [], [], lbm, ubm, Region(b1), case["step"])
     ld = affine.LoadOp(alloc.memref, [a2, a3], amap(case["ld"]))
     call = func.CallOp("eff", [ld.result], [])
     b2 = Block(arg_types=[idx])
@@ -1551,15 +1625,47 @@ def affmem_module(case):
     return m
 
 
+@guarded
 def affmem_impl(case):
     m = affmem_module(case)
     before = m.clone()
+    f = func_f(m)
+    keep_alive = list(m.walk())              # erased ops must stay alive, or CPython may reuse their id()
+    old_ids = {id(o) for o in keep_alive}
     apply_pass(m, "lower-affine")
     left = sum(1 for o in m.walk() if o.name.startswith("affine."))
+    loops = [o for o in f.body.blocks[0].ops if o.name == "scf.for"]
+    st_codes = [AFF_CODE.get(o.name, -9) for o in loops[1].regions[0].block.ops
+                if id(o) not in old_ids and not o.name.startswith("memref.") and o.name != "scf.yield"] \
+        if len(loops) == 3 else [-9]
+    ld_codes, seen_main = [], False
+    for o in f.body.blocks[0].ops:
+        if len(loops) == 3 and o is loops[1]:
+            seen_main = True
+        elif seen_main and o.name == "memref.load":
+            break
+        elif seen_main and id(o) not in old_ids:
+            ld_codes.append(AFF_CODE.get(o.name, -9))
     remember(case, before, m, case["inputs"])
-    r = recall(case)
-    ran = sum(1 for inp in case["inputs"] if evaluate(before, inp)["status"] == "ok")
-    return [left, ran]
+    runs = []
+    rng3 = None
+    for inp in case["inputs"]:
+        e = evaluate(m, inp)
+        if rng3 is None and len(e["loops"]) >= 2:
+            rng3 = e["loops"][1]
+        runs.append([0, e["mem"]] if e["status"] == "ok" else [1])
+    if left:
+        return [-9, left]
+    return [rng3 or [0, 0, 0], st_codes, ld_codes, runs]
+
+
+def affmem_coq(case):
+    lbs = case.get("lbs") or [["c", case["lo"]]]
+    ubs = case.get("ubs") or [["c", case["N"]]]
+    st, ld = (aff_struct(aff_expr(case[k], True)) if case.get("api") else case[k] for k in ("st", "ld"))
+    runs = [f"({coq_Z(i[1])}, {coq_Z(i[2])}, {coq_Z(i[3])})" for i in case["inputs"]]
+    return (f"c16_affmem {coq_list(coq_aexpr(e) for e in lbs)} {coq_list(coq_aexpr(e) for e in ubs)} "
+            f"{coq_Z(case['step'])} {coq_aexpr(st)} {coq_aexpr(ld)} {coq_list(runs)}")
 
 
 def affmem_cases(rng, n):
@@ -1588,14 +1694,398 @@ def affmem_cases(rng, n):
             st, ld = direct(st), direct(ld)
         inputs = [[rng.randint(0, 3), rng.randint(4, 12), rng.randint(0, 9), rng.randint(4, 15)] for _ in range(4)]
         inputs.append([rng.randint(-2, 3), rng.randint(-3, 15), rng.randint(-3, 15), rng.randint(-3, 15)])
-        cases.append({"api": api, "st": st, "ld": ld, "lo": rng.choice([0, 0, 1]), "N": rng.randint(3, 7),
-                      "step": rng.choice([1, 1, 2]), "p": rng.choice([1, 3, 5]), "q": rng.choice([0, 1, 2]),
-                      "inputs": inputs})
+        c = {"api": api, "st": st, "ld": ld, "lo": rng.choice([0, 0, 1]), "N": rng.randint(3, 7),
+             "step": rng.choice([1, 1, 2]), "p": rng.choice([1, 3, 5]), "q": rng.choice([0, 1, 2]), "inputs": inputs}
+        x = rng.random()
+        if x < 0.25:        # bounds given by closed constant EXPRESSIONS
+            c["lbs"] = [rng.choice([["add", ["c", 0], ["c", c["lo"]]], ["mul", ["c", c["lo"]], ["c", 1]]])]
+            c["ubs"] = [rng.choice([["add", ["c", 2], ["c", c["N"] - 2]], ["floordiv", ["c", 2 * c["N"] + 1], ["c", 2]],
+                                    ["mod", ["c", c["N"] + 16], ["c", 16]], ["ceildiv", ["c", 3 * c["N"] - 2], ["c", 3]]])]
+        elif x < 0.32:      # max/min bounds (several map results): the pass asserts
+            c["lbs"] = [["c", c["lo"]], ["c", 0]]
+        elif x < 0.38:
+            c["ubs"] = [["c", c["N"]], ["c", 9]]
+        elif x < 0.45:      # a bound that depends on an operand: the pass lowers bounds without operands
+            c["ubs"] = [["add", ["d", 0], ["c", c["N"]]]]
+        cases.append(c)
     return cases
 
 
 def affmem_nontrivial(case, res):
-    return ckey({k: v for k, v in case.items() if k != "inputs"}) if res and res[1] > 0 else None
+    ok = isinstance(res, list) and len(res) == 4 and any(r[0] == 0 for r in res[3])
+    return ckey({k: v for k, v in case.items() if k != "inputs"}) if ok else None
+
+
+# ============================================================================ family: scf.index_switch lowering
+
+def switch_text(case):
+    t = Txt()
+    nres = case["n_res"]
+    init = t.ref(case["init"])
+    head = f"%r = scf.index_switch %a0 -> index" if nres else "scf.index_switch %a0"
+    t.emit(head)
+    regs = [(f"case {c} {{", b, x) for c, b, x in zip(case["cases"], case["bodies"], case["xs"])]
+    regs.append(("default {", case["bodies"][-1], case["xs"][-1]))
+    for hd, b, x in regs:
+        t.emit(hd)
+        ys = body_lines(t, b, t.ref(["c", x]), [init] if nres else [], 2)
+        if nres:
+            t.emit(f"scf.yield {ys[0]} : index", 2)
+        else:
+            t.emit("scf.yield", 2)
+        t.emit("}")
+    return t.module("%r" if nres else t.ref(["c", 0]))
+
+
+def switch_readback(f, marks, arg):
+    blocks = list(f.body.blocks)
+    idx = {id(b): i for i, b in enumerate(blocks)}
+    out = []
+    for b in blocks:
+        ops = list(b.ops)
+        term, rest = ops[-1], ops[:-1]
+        kinds = {marks.get(id(o)) for o in rest} - {None}
+        pay = kinds.pop() if len(kinds) == 1 else (-1 if not kinds else -9)
+        unmarked = [o for o in rest if id(o) not in marks]
+        if term.name == "cf.switch":
+            fl = term.operands[0]
+            ok = (getattr(fl.owner, "name", "") == "arith.index_cast" and fl.owner.operands[0] is arg
+                  and _width(fl.type) == 32 and len(term.operands) == 1)
+            unmarked = [o for o in unmarked if o is not fl.owner]
+            cvals = [] if term.case_values is None else list(term.case_values.iter_values())
+            row = [pay, 0 if ok else -9, idx[id(term.successors[0])],
+                   [[c, idx[id(sb)]] for c, sb in zip(cvals, term.successors[1:])]]
+        elif term.name == "cf.br":
+            row = [pay, 1, idx[id(term.successors[0])]]
+        elif term.name == "func.return":
+            row = [pay, 2]
+        else:
+            row = [pay, -9]
+        if any(o.name != "arith.constant" for o in unmarked):
+            row[0] = -9
+        out.append(row)
+    return out
+
+
+@guarded
+def switch_impl(case):
+    m = parse(switch_text(case))
+    before = m.clone()
+    f = func_f(m)
+    marks, arg = {}, None
+    for op in f.walk():
+        if op.name == "scf.index_switch":
+            arg = op.operands[0]
+            regs = list(op.regions[1:]) + [op.regions[0]]          # cases in order, then default
+            for i, reg in enumerate(regs):
+                for o in reg.block.ops:
+                    if o.name != "scf.yield":
+                        marks[id(o)] = i
+    apply_pass(m, "convert-scf-to-cf")
+    remember(case, before, m, case["inputs"])
+    return [switch_readback(f, marks, arg), [enc_eval(evaluate(m, inp)) for inp in case["inputs"]]]
+
+
+def switch_coq(case):
+    k = 1 if case["n_res"] else 0
+    fs = [f"({coq_body(b, True, k)} {coq_Z(x)})" for b, x in zip(case["bodies"], case["xs"])]
+    runs = [f"({coq_Z(inp[0])}, {coq_Zs([val(case['init'], inp)] if k else [])})" for inp in case["inputs"]]
+    return f"c16_switch {coq_Zs(case['cases'])} {coq_list(fs)} {coq_list(runs)}"
+
+
+def switch_cases(rng, n):
+    out = []
+    for _ in range(n):
+        nc = rng.randint(0, 4)
+        cases = rng.sample([0, 1, 2, 3, 5, 7, 10, 4096], nc)
+        k = rng.choice([0, 1, 1])
+        inputs = rand_inputs(rng, 3, -2, 11)
+        for c in cases[:2]:
+            inputs.append([c, rng.randint(0, 5), rng.randint(0, 5), rng.randint(0, 5)])
+        if rng.random() < 0.25 and cases:      # an index that does not survive the cast to i32
+            inputs.append([rng.choice(cases) + (1 << 32) * rng.choice([1, -1, 2]), 0, 0, 0])
+        out.append({"cases": cases, "n_res": k, "init": rand_spec(rng, [0, 1, 3]),
+                    "bodies": [rand_body(rng, k) for _ in range(nc + 1)],
+                    "xs": [rng.randint(-2, 6) for _ in range(nc + 1)], "inputs": inputs})
+    return out
+
+
+def trunc32(z):
+    return _wrapw(z, 32)
+
+
+def switch_known(case, res):
+    r = recall(case)
+    if not r or not r[2]:
+        return None
+    return "C16-kf-7" if all(trunc32(case["inputs"][i][0]) != case["inputs"][i][0] for i in r[2]) else None
+
+
+def switch_nontrivial(case, res):
+    return ckey({"c": case["cases"], "k": case["n_res"]}) if case["cases"] else None
+
+
+# ============================================================================ family: control-flow-hoist
+
+def cfh_text(case):
+    t = Txt()
+
+    def r(ref, pre):
+        return t.ref(ref) if ref[0] in ("a", "c") else f"%{pre}{ref[1]}"
+    t.emit("%cond = arith.cmpi slt, %a0, %a1 : index")
+    t.emit("%r = scf.if %cond -> (index) {")
+    for pre, ops, dflt in (("t", case["then"], ["a", 2]), ("e", case["else"], ["a", 3])):
+        last = t.ref(dflt)
+        for j, o in enumerate(ops):
+            if o["k"] == "call":
+                t.emit(f"func.call @eff({r(o['a'], pre)}) : (index) -> ()", 2)
+            else:
+                t.emit(f"%{pre}{j} = arith.{o['k']} {r(o['a'], pre)}, {r(o['b'], pre)} : index", 2)
+                last = f"%{pre}{j}"
+        t.emit(f"scf.yield {last} : index", 2)
+        if pre == "t":
+            t.emit("} else {")
+    t.emit("}")
+    t.emit("func.call @eff(%r) : (index) -> ()")
+    return t.module("%r")
+
+
+def cfh_impl(case):
+    m = parse(cfh_text(case))
+    before = m.clone()
+    f = func_f(m)
+    apply_pass(m, "control-flow-hoist")
+    ifop = next(o for o in f.walk() if o.name == "scf.if")
+    left = sum(1 for reg in ifop.regions for o in reg.block.ops if o.name != "scf.yield")
+    codes = []
+    for o in f.body.blocks[0].ops:
+        if o is ifop:
+            break
+        if o.name.startswith("arith.") and o.name not in ("arith.constant", "arith.cmpi"):
+            codes.append(KINDS.index(o.name[6:]))
+    remember(case, before, m, case["inputs"])
+    fired = 1 if (left == 0 and (case["then"] or case["else"])) else 0
+    return [fired, codes if fired else []]
+
+
+def cfh_coq(case):
+    def enc(ops):
+        return coq_list(f"({COQ_KIND[o['k']]}, " + (f"Some {coq_Z(o['b'][1])}" if o["b"][0] == "c" else "None") + ")"
+                        for o in ops)
+    if not case["then"] and not case["else"]:
+        return "L [I 0; L []]"
+    return f"c16_cfh {enc(case['then'])} {enc(case['else'])}"
+
+
+def cfh_cases(rng, n):
+    out = []
+    for _ in range(n):
+        seen = set()
+
+        def branch():
+            ops = []
+            for _ in range(rng.randint(0, 3)):
+                for _try in range(20):
+                    k = rng.choice(["addi", "muli", "subi", "addi", "muli", "divsi", "remsi", "floordivsi",
+                                    "ceildivsi"] + (["remui", "call"] if rng.random() < 0.25 else []))
+                    prev = [i for i, o in enumerate(ops) if o["k"] != "call"]
+                    # every op feeds the next one (and the last one the yield): nothing is trivially dead, so the
+                    # rewrite driver's dead-code removal (not modelled) has nothing to erase
+                    a = ["op", prev[-1]] if prev else \
+                        (["a", rng.randrange(N_ARGS)] if rng.random() < 0.6 else ["c", rng.choice([1, 2, 3, 5, -1, 4])])
+                    if k in ("divsi", "remsi", "floordivsi", "ceildivsi", "remui"):
+                        b = ["a", rng.randrange(N_ARGS)] if rng.random() < 0.4 else ["c", rng.choice([1, 2, 3, 5, 0, 4, 7])]
+                    else:
+                        b = ["a", rng.randrange(N_ARGS)] if rng.random() < 0.6 else ["c", rng.choice([1, 2, 3, 5, -1, 4])]
+                    # CSE (not modelled) runs after the hoist: keep all ops structurally distinct
+                    key = (k, tuple(a) if a[0] != "op" else ("op", len(ops), a[1]), tuple(b))
+                    if a[0] == "op" or key not in seen:
+                        seen.add(key)
+                        ops.append({"k": k, "a": a, "b": b})
+                        break
+            return ops
+        out.append({"then": branch(), "else": branch(), "inputs": rand_inputs(rng, 5, -3, 6)})
+    return out
+
+
+def cfh_known(case, res):
+    r = recall(case)
+    if not r or not r[2] or not isinstance(res, list) or res[0] != 1:
+        return None
+    for i in r[2]:
+        inp = case["inputs"][i]
+        if not any(o["k"] in PURE_DIV and val(o["b"], inp) == 0 for o in case["then"] + case["else"]):
+            return None
+    return "C16-kf-8"
+
+
+def cfh_nontrivial(case, res):
+    return ckey({"t": case["then"], "e": case["else"]}) if isinstance(res, list) and res[0] == 1 else None
+
+
+# ============================================================================ family: frontend-desymrefy (single block)
+
+def desym_text(case):
+    """ops: ["decl", s] | ["upd", s, v] | ["fetch", s, r] | ["use", id, v1, v2]; v = ["k", c] | ["a", i] | ["f", r] | ["u", id];
+    the function returns the last use (or 0)"""
+    t = Txt(eff_defined=True)
+
+    def v(x):
+        if x[0] == "k":
+            return t.ref(["c", x[1]])
+        if x[0] == "a":
+            return f"%a{x[1]}"
+        return f"%f{x[1]}" if x[0] == "f" else f"%u{x[1]}"
+    last = t.ref(["c", 0])
+    for o in case["ops"]:
+        if o[0] == "decl":
+            t.emit(f'symref.declare "s{o[1]}"')
+        elif o[0] == "upd":
+            t.emit(f"symref.update @s{o[1]} = {v(o[2])} : index")
+        elif o[0] == "fetch":
+            t.emit(f"%f{o[2]} = symref.fetch @s{o[1]} : index")
+        else:
+            t.emit(f"%u{o[1]} = arith.addi {v(o[2])}, {v(o[3])} : index")
+            t.emit(f"func.call @eff(%u{o[1]}) : (index) -> ()")
+            last = f"%u{o[1]}"
+    return t.module(last)
+
+
+def sval_code(x):
+    """sval of the model: VOut n with constants 1000+c, arguments 2000+i, use results id; VFetch r"""
+    if x[0] == "k":
+        return [0, 1000 + x[1]]
+    if x[0] == "a":
+        return [0, 2000 + x[1]]
+    return [1, x[1]] if x[0] == "f" else [0, x[1]]
+
+
+def desym_impl(case):
+    m = parse(desym_text(case))
+    before = m.clone()
+    f = func_f(m)
+    names = {}
+    for a in f.body.blocks[0].args:
+        names[a] = [0, 2000 + a.index]
+    for o in f.body.blocks[0].ops:
+        if o.name == "arith.constant":
+            names[o.results[0]] = [0, 1000 + o.value.value.data]
+        elif o.name == "symref.fetch":
+            names[o.results[0]] = [1, int(o.results[0].name_hint[1:])]
+        elif o.name == "arith.addi":
+            names[o.results[0]] = [0, int(o.results[0].name_hint[1:])]
+    try:
+        apply_pass(m, "frontend-desymrefy")
+    except Exception as e:  # noqa: BLE001  (FrontendProgramException)
+        _CACHE.pop(ckey(case), None)
+        return [-1, exc_code(e)]
+    out = []
+    for o in f.body.blocks[0].ops:
+        if o.name == "symref.declare":
+            out.append([0, int(o.sym_name.data[1:])])
+        elif o.name == "symref.update":
+            out.append([1, int(o.symbol.root_reference.data[1:]), names[o.operands[0]]])
+        elif o.name == "symref.fetch":
+            out.append([2, int(o.symbol.root_reference.data[1:]), names[o.results[0]][1]])
+        elif o.name == "arith.addi":
+            out.append([3, names[o.results[0]][1], [names[x] for x in o.operands]])
+    remember(case, before, m, case["inputs"])
+    return [out, out, 1]
+
+
+def desym_coq(case):
+    def sv(x):
+        c = sval_code(x)
+        return f"(VOut {coq_nat(c[1])})" if c[0] == 0 else f"(VFetch {coq_nat(c[1])})"
+    ops = []
+    for o in case["ops"]:
+        if o[0] == "decl":
+            ops.append(f"SDeclare {coq_nat(o[1])}")
+        elif o[0] == "upd":
+            ops.append(f"SUpdate {coq_nat(o[1])} {sv(o[2])}")
+        elif o[0] == "fetch":
+            ops.append(f"SFetch {coq_nat(o[1])} {coq_nat(o[2])}")
+        else:
+            ops.append(f"SUse {coq_nat(o[1])} [{sv(o[2])}; {sv(o[3])}]")
+    return f"c16_desym {coq_list(ops)}"
+
+
+def desym_cases(rng, n):
+    out = []
+    for _ in range(n):
+        nsym = rng.randint(1, 3)
+        ops, vals, init, nf, nu = [], [["k", 0], ["k", 3], ["a", 0], ["a", 1]], set(), 0, 0
+        for s in range(nsym):
+            ops.append(["decl", s])
+        for _ in range(rng.randint(2, 10)):
+            x = rng.random()
+            s = rng.randrange(nsym)
+            if x < 0.4 or s not in init:
+                ops.append(["upd", s, rng.choice(vals)])
+                init.add(s)
+            elif x < 0.75:
+                ops.append(["fetch", s, nf])
+                vals.append(["f", nf])
+                nf += 1
+            else:
+                ops.append(["use", nu, rng.choice(vals), rng.choice(vals)])
+                vals.append(["u", nu])
+                nu += 1
+        fetched = [v for v in vals if v[0] == "f"]
+        if fetched:
+            ops.append(["use", nu, fetched[-1], rng.choice(vals)])
+        out.append({"ops": ops, "inputs": rand_inputs(rng, 2, -3, 6)})
+    return out
+
+
+def desym_nontrivial(case, res):
+    return ckey(case["ops"]) if any(o[0] == "fetch" for o in case["ops"]) else None
+
+
+# ---------------------------------------------------------------------------- desymref with nested regions (oracle only)
+
+def desymn_text(case):
+    t = Txt(eff_defined=True)
+    t.emit('symref.declare "a"')
+    t.emit(f"symref.update @a = {t.ref(case['init'])} : index")
+    if case["kind"] == "for":
+        t.emit(f"scf.for %i = {t.ref(['c', 0])} to {t.ref(case['n'])} step {t.ref(['c', 1])} {{")
+    else:
+        t.emit("%cond = arith.cmpi slt, %a0, %a1 : index")
+        t.emit("scf.if %cond {")
+    t.emit("%t1 = symref.fetch @a : index", 2)
+    t.emit(f"%t2 = arith.addi %t1, {t.ref(['c', case['inc']])} : index", 2)
+    t.emit("symref.update @a = %t2 : index", 2)
+    t.emit("}")
+    if case["read_after"]:
+        t.emit("%t3 = symref.fetch @a : index")
+        t.emit("func.call @eff(%t3) : (index) -> ()")
+        return t.module("%t3")
+    return t.module(t.ref(["c", 0]))
+
+
+def desymn_impl(case):
+    m = parse(desymn_text(case))
+    before = m.clone()
+    try:
+        apply_pass(m, "frontend-desymrefy")
+    except Exception as e:  # noqa: BLE001
+        _CACHE.pop(ckey(case), None)
+        return [-1, exc_code(e)]
+    left = sum(1 for o in m.walk() if o.name.startswith("symref."))
+    remember(case, before, m, case["inputs"])
+    return [left]
+
+
+def desymn_cases(rng, n):
+    return [{"kind": rng.choice(["for", "if"]), "init": rand_spec(rng, [0, 1, 5]), "n": rand_spec(rng, [0, 2, 3]),
+             "inc": rng.choice([1, 2, 7]), "read_after": rng.random() < 0.8, "inputs": rand_inputs(rng, 4, -2, 5)}
+            for _ in range(n)]
+
+
+def desymn_known(case, res):
+    r = recall(case)
+    return "C16-kf-9" if (r and r[2]) else None        # every generated case accesses @a in a nested region
 
 
 # ============================================================================ family 7: nested programs (oracle only)
@@ -1746,11 +2236,17 @@ FAMILIES = {
     "unroll": (unroll_cases, unroll_impl, unroll_coq, None, unroll_nontrivial),
     "licm": (licm_cases, licm_impl, licm_coq, licm_known, licm_nontrivial),
     "lower-affine": (aff_cases, aff_impl, aff_coq, aff_known, aff_nontrivial),
+    "lower-affine-for-load-store": (affmem_cases, affmem_impl, affmem_coq, None, affmem_nontrivial),
+    "index-switch": (switch_cases, switch_impl, switch_coq, switch_known, switch_nontrivial),
+    "control-flow-hoist": (cfh_cases, cfh_impl, cfh_coq, cfh_known, cfh_nontrivial),
+    "desymref": (desym_cases, desym_impl, desym_coq, None, desym_nontrivial),
 }
-SIZES = {"quick": {"scf-to-cf": 60, "range-folding": 90, "flatten": 110, "unroll": 75, "licm": 80,
-                   "lower-affine": 150, "programs": 60, "affine-memory": 60},
+SIZES = {"quick": {"scf-to-cf": 50, "range-folding": 80, "flatten": 90, "unroll": 70, "licm": 70,
+                   "lower-affine": 120, "programs": 50, "lower-affine-for-load-store": 50, "index-switch": 50,
+                   "control-flow-hoist": 70, "desymref": 70, "desymref-nested": 20},
          "thorough": {"scf-to-cf": 900, "range-folding": 1500, "flatten": 2000, "unroll": 1200, "licm": 1500,
-                      "lower-affine": 3000, "programs": 1500, "affine-memory": 1200}}
+                      "lower-affine": 3000, "programs": 1500, "lower-affine-for-load-store": 1200,
+                      "index-switch": 900, "control-flow-hoist": 1500, "desymref": 1500, "desymref-nested": 200}}
 
 # hand-picked seeds that always run first (DESIGN section 11 witnesses and boundary shapes)
 CORPUS = {
@@ -1834,15 +2330,16 @@ def run(ctx: Ctx):
     multi_differential(ctx, specs)
     pcases = prog_cases(rng, sizes["programs"])
     oracle_only(ctx, "nested-programs", pcases, prog_impl, generic_holds(prog_impl), None, prog_nontrivial)
-    mcases = affmem_cases(rng, sizes["affine-memory"])
-    oracle_only(ctx, "lower-affine-for-load-store", mcases, affmem_impl, generic_holds(affmem_impl), None,
-                affmem_nontrivial)
+    replay_findings(ctx, "desymref-nested", desymn_impl, generic_holds(desymn_impl))
+    oracle_only(ctx, "desymref-nested", desymn_cases(rng, sizes["desymref-nested"]), desymn_impl,
+                generic_holds(desymn_impl), desymn_known, lambda c, r: ckey({k: v for k, v in c.items() if k != "inputs"}))
     ctx.coverage["rule"] = __doc__.split("\n\n", 1)[1][:1400]
     ctx.coverage["semantics_dependent_inputs_not_listed"] = (
         f"{NOTES['semantics_dependent_inputs']} input(s) differed only under the cmpi-slt reading of a non-positive "
         "step produced by the pass (range folding by a negative multiplier) and agree under Python-range semantics")
-    ctx.coverage["not_modelled"] = ["scf.index_switch lowering", "lower-affine for/load/store (oracle only)",
-                                    "control-flow-hoist (oracle only)", "desymref"]
+    ctx.coverage["not_modelled"] = ["scf.while lowering (absent from convert-scf-to-cf)", "affine.if (no lowering, hoisting "
+                                    "not modelled)", "desymref: prune_uses_without_definitions, nested regions (C16-kf-9)",
+                                    "CSE / dead-op removal inside control-flow-hoist"]
     ctx.coverage["pipelines_nested_programs"] = PIPELINES
 
 
@@ -1859,6 +2356,12 @@ def replay_case(ctx, witness):
             print("model result:", ctx.coq_eval(REQ, [coq(case)])[0])
         except Exception as e:  # noqa: BLE001
             print("model unavailable:", e)
+        return 0 if ok else 1
+    if fam == "desymref-nested" and case is not None:
+        r = desymn_impl(case)
+        ok, why = generic_holds(desymn_impl)(case, r)
+        print(desymn_text(case))
+        print("oracle:", "holds" if ok else "FAILS: " + why)
         return 0 if ok else 1
     if fam == "nested-programs" and case is not None:
         r = prog_impl(case)
